@@ -215,7 +215,7 @@ def gen_case(cseed: int, tier: str) -> dict[str, Any]:
         "slot": slot,
         "via_writer": w.random() < 0.15 and all(r[1] == "plain" for r in recs),
         "second_delta": (delta + 0x400000) if (w.random() < 0.3 or (dform == "macro_arg" and w.random() < 0.5)) else None,
-        "patch_path": w.choice(["p.ips", "p.ips", "sub/p.ips", "a b/p-1.ips", "$ROOT$/p.ips", "$ROOT$/sub/p.ips", "lnk/../p.ips", "sub/../p.ips", "./p.ips"]),
+        "patch_path": w.choice(["p.ips", "p.ips", "sub/p.ips", "a b/p-1.ips", "$ROOT$/p.ips", "$ROOT$/sub/p.ips", "lnk/../p.ips", "sub/../p.ips", "./p.ips", "FF4 (U) [T+Eng1.0] hack.ips", "p[1].ips", "p?.ips", "a*b.ips", "{p,q}.ips", "~p.ips", "$HOME.ips", "%TEMP%.ips", "p;q.ips", "p#1.ips"]),
         "decoy": w.random() < 0.5,
     }
 
@@ -406,6 +406,12 @@ def run_single(case: dict[str, Any], stats: Stats) -> list[Violation]:
             files[ppath[len("lnk/../") :]] = ipsref.encode([(0x2F0000, "plain", b"decoy")])
         ppath = "deep/" + ppath[len("lnk/../") :]
         stats.bump("probe:patch_path_through_symlink_and_dotdot")
+    elif any(ch in ppath for ch in "[]?*{}~$%") and case.get("decoy"):
+        # a name full of characters that mean something to shells and glob(): a sibling that such a pattern
+        # would match holds other records
+        for sib in ("p1.ips", "pq.ips", "ab.ips", "axb.ips", "p.ips", "q.ips", "FF4 (U) E hack.ips", "FF4 (U) T hack.ips"):
+            if sib != ppath:
+                files[sib] = ipsref.encode([(0x2F0000, "plain", b"decoy")])
     elif "/../" in ppath or ppath.startswith("./"):
         if "/../" in ppath:
             files[ppath.split("/../")[0] + "/.keep"] = b""  # the directory named before '..' exists
